@@ -221,6 +221,13 @@ func reifyMap(opts *options, to reflect.Value, from *Config, validators []valida
 		if !old.IsValid() {
 			v, err = reifyValue(fieldOptions{opts: opts}, to.Type().Elem(), value)
 		} else {
+			// values stored in a map are not addressable: merge into a copy,
+			// which is stored back below
+			if !old.CanAddr() {
+				tmp := reflect.New(old.Type()).Elem()
+				tmp.Set(old)
+				old = tmp
+			}
 			v, err = reifyMergeValue(fieldOptions{opts: opts}, old, value)
 		}
 
